@@ -25,7 +25,10 @@ THEOREMS = [
 PROOF_IMPORTS = ["BigtreeProofs.Properties.C06"]
 
 RULE = ("trees: all ordered shapes up to N nodes x every start node x the gate grid (max_depth, skip_depth, leaf_only) "
-        "+ random trees (6-30 nodes) with sibling-unique names from per-format hostile alphabets (Newick specials, blanks, "
+        "+ random trees (6-30 nodes) + LARGE trees (101-400 nodes: a node with >=100 children / depth 40-60 / mixed) with sparse, "
+        "late-appearing attributes and attributes whose type changes after row 100 (None..int, int..str) for dict/pandas/polars "
+        "+ Newick attribute values that are == but of different types (True/1/1.0, False/0/0.0, 2/2.0) in one tree and across "
+        "consecutive cases with sibling-unique names from per-format hostile alphabets (Newick specials, blanks, "
         "double quotes, dots, digits, non-ASCII; never the separator, never ' in the valid stream), attribute maps with "
         "ints/strings/None; options name_key/name_col, parent_key/parent_col, path_col, attr_dict, all_attrs, separator, "
         "start node != root; pandas and polars through the real libraries; a malformed Newick stream (all short strings "
@@ -33,9 +36,9 @@ RULE = ("trees: all ordered shapes up to N nodes x every start node x the gate g
         "nodes (parse: the string has >= 3 characters); distinct = distinct protocol lines")
 EXHAUSTIVE = {
     "quick": "tree_to_dict: all ordered trees <= 5 nodes x every start node x max_depth 0..3 x skip_depth 0..2 x leaf_only; "
-             "newick_to_tree: every string of length <= 4 over the 10 characters ( ) , : ' [ ] = A 1",
+             "newick_to_tree: every string of length <= 3 over the 10 characters ( ) , : ' [ ] = A 1",
     "thorough": "tree_to_dict / tree_to_dataframe / tree_to_polars: all ordered trees <= 6 nodes x every start node x "
-                "max_depth 0..4 x skip_depth 0..3 x leaf_only; newick_to_tree: every string of length <= 5 over the 10 "
+                "max_depth 0..4 x skip_depth 0..3 x leaf_only; newick_to_tree: every string of length <= 4 over the 10 "
                 "characters ( ) , : ' [ ] = A 1",
 }
 MODELLED = [
@@ -43,13 +46,16 @@ MODELLED = [
     "normalisation (columns in order of first appearance, missing -> null); row order kept by to_dict/to_dicts",
     "a Python dict is an insertion-ordered association list; node attributes are null | int | str",
     "the separator is one character; every exception is modelled as 'rejected'",
+    "floats occur only as Newick attribute values and are presented to the model as their str() text (0.0 as the falsy int 0): "
+    "the writer formats only truthy values and never quotes numbers",
     "float() in newick_to_tree is modelled only for blank-padded ASCII digit strings (the generated alphabets contain no other float syntax)",
     "assert_dataframe_no_duplicate_attribute is not modelled (exported frames have distinct paths)",
     "the printed-tree round trip is tied real-to-real (print_tree -> str_to_tree) against the specification 'same tree'; its model is C18's",
 ]
 ASSUMPTIONS = [
     "pandas up-casts an int column with missing values to float and reads missing values back as NaN; values are compared numerically, NaN/None as null",
-    "polars infers one type per column; generated polars frames have type-homogeneous columns",
+    "polars columns are typed: a column holding both ints and strings becomes a string column (ints as decimal text); the tie "
+    "models this coercion, the oracle accepts it, the theorems are about type-homogeneous columns",
     "names are non-empty, sibling-unique, free of the separator (and of ' for Newick; of leading blanks and style glyphs for print)",
     "attribute keys are not Node property/method names",
 ]
@@ -132,7 +138,29 @@ def _line(d) -> str:
                   "ad=" + (",".join(hx(k) + ":" + hx(v) for k, v in d["ad"]) or "-"),
                   f"all={int(d['all'])}", f"md={d['md']}", f"sd={d.get('sd', 0)}", f"lo={int(d.get('lo', False))}"]
     parts.append(f"start={d['start']}")
-    return " ".join(parts) + " T " + core.enc_tree(d["spec"])
+    return " ".join(parts) + " T " + enc_tree_f(d["spec"])
+
+
+def _enc_val_f(v) -> str:
+    """Floats occur only in Newick attribute values. The writer formats a value only when it is
+    truthy and never quotes a number, so a float is presented to the model as its `str()` text
+    (a string without special characters) and 0.0 as the (falsy, never formatted) integer 0."""
+    if isinstance(v, float):
+        return core.enc_val(0) if v == 0.0 else core.enc_val(repr(v))
+    return core.enc_val(v)
+
+
+def enc_tree_f(t, counter=None) -> str:
+    if counter is None:
+        counter = itertools.count()
+    name, attrs, kids = t
+    i = next(counter)
+    at = ",".join(hx(k) + ":" + _enc_val_f(v) for k, v in attrs.items()) if attrs else "-"
+    parts = ["(", str(i), hx(name), at]
+    for k in kids:
+        parts.append(enc_tree_f(k, counter))
+    parts.append(")")
+    return " ".join(parts)
 
 
 def mk(d, tags=()):
@@ -228,18 +256,28 @@ def newick_opts(rng, keys):
             "ap": rng.choice(["&&NHX:", "&&NHX:", "", "X"]), "as": rng.choice([":", ":", ":", "|"])}
 
 
-def newick_tree(rng, shape, quote=False):
+COLLIDING = [True, 1, 1.0, False, 0, 0.0, 2, 2.0, "1", "True", "2.0", 25, -3.0]
+
+
+def newick_tree(rng, shape, quote=False, collide=None, rot=0):
+    """collide: None | True — attribute values drawn from ==-equal values of different types
+    (True/1/1.0, False/0/0.0, 2/2.0, and their texts); `rot` rotates the pool so that consecutive
+    cases assign different types to the same positions"""
     names = NEWICK_NAMES + (["a'b", "'", "it's"] if quote else [])
     spec = core.label_sibling_unique(shape, rng, names)
-    keys = NEWICK_KEYS[: rng.randint(0, len(NEWICK_KEYS))]
+    keys = NEWICK_KEYS[: rng.randint(1 if collide else 0, len(NEWICK_KEYS))]
     lmode = rng.random()
+    ctr = itertools.count(rot)
 
     def go(s):
         name, _a, kids = s
         attrs = {}
         for k in keys:
-            if rng.random() < 0.6:
-                attrs[k] = rng.choice([1, 0, 25, "x", "y z", "q:r", "", "[w]", "U,V", "a=b", None, '"'])
+            if collide:
+                if rng.random() < 0.85:
+                    attrs[k] = COLLIDING[next(ctr) % len(COLLIDING)] if rng.random() < 0.7 else rng.choice(COLLIDING)
+            elif rng.random() < 0.6:
+                attrs[k] = rng.choice([1, 0, 25, "x", "y z", "q:r", "", "[w]", "U,V", "a=b", None, '"', True, False])
         r = rng.random()
         if lmode < 0.8 or r < 0.9:
             attrs["L"] = rng.choice([1, 2, 35, 100, "12", "007"])
@@ -306,6 +344,83 @@ def malformed_strings(rng, n):
     return out
 
 
+def shape_from_parents(parents):
+    kids = [[] for _ in parents]
+    for v in range(1, len(parents)):
+        kids[parents[v]].append(v)
+    def build(u):
+        return [build(c) for c in kids[u]]
+    return build(0)
+
+
+def large_shape(rng, n, style):
+    """101..400 nodes: 'wide' (a node with >= 100 children), 'deep' (depth 40-60), 'mixed'"""
+    parents = [0] * n
+    depth = [1] * n
+    if style == "wide":
+        k = rng.randint(100, min(n - 1, 300))
+        for v in range(1, n):
+            parents[v] = 0 if v <= k else rng.randrange(1, v)
+            depth[v] = depth[parents[v]] + 1
+    elif style == "deep":
+        for v in range(1, n):
+            p = v - 1 if rng.random() < 0.75 else rng.randrange(v)
+            if depth[p] >= 55:
+                p = rng.randrange(max(1, v // 2))
+            parents[v] = p
+            depth[v] = depth[p] + 1
+    else:
+        for v in range(1, n):
+            p = rng.randrange(max(0, v - 12), v) if rng.random() < 0.6 else rng.randrange(v)
+            if depth[p] >= 40:
+                p = 0
+            parents[v] = p
+            depth[v] = depth[p] + 1
+    return shape_from_parents(parents)
+
+
+LARGE_KEYS = ["late", "N2I", "I2S", "SP", "LI", "S"]
+
+
+def large_tree(rng, n, style):
+    """sparse / late-appearing attributes and attributes whose type changes after row 100
+    (None... then int, int... then str), by pre-order index = export row"""
+    shape = large_shape(rng, n, style)
+    keys = [k for k in LARGE_KEYS if rng.random() < 0.7] or ["late"]
+    t0 = {k: rng.randint(101, n - 1) for k in keys}
+
+    def attrer(i):
+        a = {}
+        for k in keys:
+            t = t0[k]
+            if k == "late":
+                if i == t:
+                    a[k] = "v"
+            elif k == "N2I":
+                a[k] = None if i < t else i
+            elif k == "I2S":
+                if rng.random() < 0.8:
+                    a[k] = i if i < t else "s%d" % i
+            elif k == "SP":
+                if rng.random() < 0.03:
+                    a[k] = rng.choice([0, 7, 30])
+            elif k == "LI":
+                if i >= t and rng.random() < 0.5:
+                    a[k] = i
+            elif k == "S":
+                if rng.random() < 0.5:
+                    a[k] = rng.choice(["x", "y z", "", "1"])
+        return a
+    spec = core.label(shape, lambda i, d, k, p: "n%d" % i, attrer)
+    def tolist(t):
+        return [t[0], t[1], [tolist(c) for c in t[2]]]
+    return tolist(spec), keys
+
+
+def d10_witness():
+    return ["r", {}, [["c%d" % i, ({"late": "v"} if i == 120 else {}), []] for i in range(150)]]
+
+
 def gen(rng: random.Random, tier: str):
     cases = []
     quick = tier == "quick"
@@ -327,6 +442,47 @@ def gen(rng: random.Random, tier: str):
                 if fmt != "dict":
                     d["pc"] = "path"
                 add(mk(d, ("corpus", "skip_depth>0,depth>=5", fmt)))
+    # ---- corpus: D10 (tree_to_polars inferred the schema from the first 100 rows only)
+    for fmt in ("dict", "pandas", "polars"):
+        for op in ("exp", "rt"):
+            for allattrs in (False, True):
+                d = {"fmt": fmt, "op": op, "spec": d10_witness(), "start": 0, "sep": "/", "nk": "name", "pk": "",
+                     "ad": [] if allattrs else [["late", "late"]], "all": allattrs, "md": 0, "sd": 0, "lo": False}
+                if fmt != "dict":
+                    d["pc"] = "path"
+                if allattrs:
+                    d["full"] = True
+                add(mk(d, ("corpus", "D10-late-attribute", fmt, op)))
+    # ---- large trees (101-400 nodes) with sparse / late attributes, late type changes
+    for k in range(9 if quick else 90):
+        style = ["wide", "deep", "mixed"][k % 3]
+        n = rng.randint(101, 400)
+        spec, keys = large_tree(rng, n, style)
+        depth = max(len(a) for a, _s in core.spec_nodes(spec)) + 1
+        for fmt in ("dict", "pandas", "polars"):
+            for op in ("exp", "rt"):
+                full = op == "rt" and rng.random() < 0.6
+                d = {"fmt": fmt, "op": op, "spec": spec, "sep": "/", "start": 0 if full or rng.random() < 0.7 else rng.randrange(n)}
+                if full:
+                    d.update({"nk": "name", "pk": "", "ad": [], "all": True, "md": 0, "sd": 0, "lo": False, "full": True})
+                else:
+                    allattrs = rng.random() < 0.5
+                    d.update({"nk": rng.choice(["name", "NAME"]), "pk": "" if op == "rt" else rng.choice(["", "PAR"]),
+                              "all": allattrs, "ad": [] if allattrs else [[kk, kk.upper() + "_"] for kk in keys if rng.random() < 0.7],
+                              "md": rng.choice([0, 0, 0, 2, depth - 1]), "sd": rng.choice([0, 0, 1]), "lo": rng.random() < 0.2})
+                if fmt != "dict":
+                    d["pc"] = "path"
+                add(mk(d, ("large", style, fmt, op, "nodes>100")))
+    # ---- Newick: attribute values that are == but of different types (True/1/1.0, False/0/0.0, 2/2.0),
+    #      in one tree and across consecutive cases of the run
+    for k, shape in enumerate(list(core.all_shapes_upto(4 if quick else 5)) +
+                              [core.random_shape(rng, rng.randint(5, 20)) for _ in range(60 if quick else 600)]):
+        for rot in (0, 1, 2):
+            spec, keys = newick_tree(rng, shape, collide=True, rot=rot + k)
+            d = {"fmt": "newick", "op": ["exp", "rt", "exp"][rot], "spec": spec, "sep": "/", "start": 0,
+                 "inn": True, "la": rng.choice(["", "", "L"]), "ls": ":", "al": list(keys), "ap": rng.choice(["&&NHX:", ""]),
+                 "as": ":", "full": True}
+            add(mk(d, ("collide", "newick", d["op"])))
     # ---- exhaustive gate grid
     nmax_dict = 5 if quick else 6
     nmax_rows = 4 if quick else 6
@@ -441,10 +597,10 @@ def gen(rng: random.Random, tier: str):
                 "style": rng.choice(["ansi", "ascii", "const", "const_bold", "rounded", "double"])}, ("random", "print")))
     # ---- malformed Newick stream
     alpha = "(),:'[]=A1"
-    for L in range(1, (4 if quick else 5) + 1):
+    for L in range(1, (3 if quick else 4) + 1):
         for tup in itertools.product(alpha, repeat=L):
             add(mk({"fmt": "newick", "op": "parse", "s": "".join(tup)}, ("parse", "allstrings", "len=%d" % L)))
-    for s in malformed_strings(rng, 1500 if quick else 15000):
+    for s in malformed_strings(rng, 2500 if quick else 30000):
         if s:
             add(mk({"fmt": "newick", "op": "parse", "s": s, "la": rng.choice(["length", "L"]),
                     "ap": rng.choice(["&&NHX:", "&&NHX:", ""])}, ("parse", "mutated")))
@@ -606,8 +762,19 @@ def _expected_attrs(d, n):
     return [(col, vars(n).get(k)) for k, col in d["ad"]]
 
 
-def _check_record(d, n, sep, rec, where, msgs, tabular):
-    """rec: mapping of the record; the property: exact name, path, parent name, requested attribute values"""
+def _mixed_keys(records):
+    """keys under which both an int and a str occur (polars turns such a column into strings)"""
+    kinds = {}
+    for r in records:
+        for k, v in r.items():
+            if isinstance(v, bool) or v is None:
+                continue
+            if isinstance(v, (int, str)):
+                kinds.setdefault(k, set()).add(type(v).__name__)
+    return {k for k, t in kinds.items() if t == {"int", "str"}}
+
+
+def _want_record(d, n, sep, tabular):
     want = {}
     if tabular and d.get("pc"):
         want[d["pc"]] = _path(n, sep)
@@ -617,6 +784,19 @@ def _check_record(d, n, sep, rec, where, msgs, tabular):
         want[d["pk"]] = n.parent.node_name if n.parent is not None else None
     for k, v in _expected_attrs(d, n):
         want[k] = v
+    return want
+
+
+def _check_record(d, n, sep, rec, where, msgs, tabular, coerced=()):
+    """rec: mapping of the record; the property: exact name, path, parent name, requested attribute values"""
+    want = _want_record(d, n, sep, tabular)
+    for k in coerced:
+        if k in want and isinstance(want[k], int) and not isinstance(want[k], bool):
+            want[k] = str(want[k])
+    return _check_want(want, n, sep, rec, where, msgs, tabular)
+
+
+def _check_want(want, n, sep, rec, where, msgs, tabular):
     for k, v in want.items():
         if k not in rec:
             if tabular and v is None:
@@ -669,8 +849,9 @@ def oracle(case):
             if len(rows) != len(sel):
                 msgs.append(f"{fmt}: {len(rows)} rows for {len(sel)} selected nodes")
             else:
+                coerced = _mixed_keys([_want_record(d, n, sep, True) for n in sel]) if fmt == "polars" else ()
                 for n, r in zip(sel, rows):
-                    _check_record(d, n, sep, dict(zip(cols, r)), fmt, msgs, True)
+                    _check_record(d, n, sep, dict(zip(cols, r)), fmt, msgs, True, coerced)
     elif fmt == "nested":
         md = d["md"]
         ck = d["ck"]
@@ -693,7 +874,8 @@ def oracle(case):
         msgs.append(f"{fmt}: the export changed the input tree")
     # round trip of a FULL export: equal in names, shape, sibling order and exported attributes
     in_alphabet = all("'" not in n.node_name for n in _pre(start)) if fmt == "newick" else True
-    if d.get("full") and d["op"] == "rt" and in_alphabet:
+    newick_std = fmt == "newick" and d["inn"] and d["ls"] == ":" and d["as"] == ":"
+    if ((d.get("full") and d["op"] == "rt") or newick_std) and in_alphabet:
         try:
             t2 = _import(d, ex)
         except Exception as e:
@@ -703,7 +885,10 @@ def oracle(case):
             a, b = _tree_sig(start, attrs_of), _tree_sig(t2, attrs_of)
         elif fmt in ("pandas", "polars"):
             attrs_of = lambda n: tuple(sorted((k, cval(v)) for k, v in _public(n).items() if cval(v) != "n"))
-            a, b = _tree_sig(start, attrs_of), _tree_sig(t2, attrs_of)
+            coerced = _mixed_keys([_public(n) for n in _pre(start)]) if fmt == "polars" else ()
+            orig_of = lambda n: tuple(sorted((k, cval(str(v) if k in coerced and isinstance(v, int) and not isinstance(v, bool) else v))
+                                             for k, v in _public(n).items() if cval(v) != "n"))
+            a, b = _tree_sig(start, orig_of), _tree_sig(t2, attrs_of)
         else:  # newick: listed truthy attributes as text, length numerically
             la = d["la"]
             def orig(n):
